@@ -133,8 +133,10 @@ var writeCmdEvent = &cobra.Command{
 		}
 
 		for ev := range midix.NewReader().Events(bytes.NewReader(buf.Bytes())) {
-			fmt.Fprintf(out, "Track %d\t@%d(%d)\t%s\n",
-				ev.TrackNo, ev.AbsTicks, ev.AbsTicks/midix.DefaultTicksPerQuoaterNote, ev.Message)
+			if _, err := fmt.Fprintf(out, "Track %d\t@%d(%d)\t%s\n",
+				ev.TrackNo, ev.AbsTicks, ev.AbsTicks/midix.DefaultTicksPerQuoaterNote, ev.Message); err != nil {
+				return err
+			}
 		}
 
 		return nil
